@@ -437,3 +437,28 @@ def bytecmp(points):
                                    'NaN != NaN but its bytes are equal)' % (name, E), where=f['pname'], unit=prog.uname))
         rr.instance('%s' % prog.uname, {'unit': prog.uname, 'element': E, 'bitwise_equality_is_value_equality': bitwise_ok, 'byte_comparisons_on_E*': n})
     return rr
+
+
+# ------------------------------------------------------------------------------ SAMETYPE
+def bytecopy_sametype(progs):
+    """A byte copy between two ranges is a copy of objects only if both have the same value type."""
+    rr = RuleResult('SAMETYPE', 'every memcpy / memmove issued by amc copies between pointers to the same value type (a copy between different '
+                                'types must convert each element, as the standard algorithm does)')
+    for prog in progs:
+        for f in prog.amc_functions():
+            body = f.get('body')
+            if body is None:
+                continue
+            for c in A.calls(body):
+                if not (A.callee(c) in BYTECOPY or A.cshort(c) in ('memcpy', 'memmove', '__builtin_memcpy', '__builtin_memmove')) or len(c.get('args', [])) < 2:
+                    continue
+                ts = [norm_ptr(A.strip(a).get('t', '')) for a in c['args'][:2]]
+                if not all(t.endswith('*') for t in ts) or any(t.startswith('void') for t in ts):
+                    continue
+                ok = ts[0] == ts[1]
+                rr.instance('%s|%s|%s' % (f['key'], ts[0], ts[1]), {'function': f['pname'][:140], 'destination': ts[0], 'source': ts[1], 'ok': ok})
+                if not ok:
+                    rr.add(Finding('SAMETYPE', '%s|%s' % (f['key'], A.cshort(c)), prog.site(f, c),
+                                   '%s copies bytes from %s to %s: objects of a different type are reinterpreted instead of converted'
+                                   % (A.cshort(c), ts[1], ts[0]), where=f['pname'], unit=prog.uname))
+    return rr
